@@ -281,13 +281,6 @@ func checkC03Format(f string, d *Decoded, vs *vlist) {
 func checkC03(c *BuildCase) []Violation {
 	var vs vlist
 	err := c.withRoot(func(root string) error {
-		// history: a build of the same format that fails at its first write comes first
-		// (a packager must not carry state from a failed build into the next one)
-		for _, f := range c.formats() {
-			if cfg, err := c.ParseConfigFor(root, f); err == nil {
-				_ = packageInto(&cfg, f, &faultWriter{failAt: 0, budget: -1})
-			}
-		}
 		b := buildAll(c, root, "C03", &vs)
 		for _, f := range c.formats() {
 			if d := b.decoded[f]; d != nil {
